@@ -246,7 +246,7 @@ def hmap_order(vm, hm):
 
 def _sort_key(k):
     if isinstance(k, (int, float, bool)): return (0, k)
-    if isinstance(k, SymStr): return (1, z3.simplify(k.term).as_string())
+    if isinstance(k, SymStr): return (1, zstr(z3.simplify(k.term)))
     if isinstance(k, BStr): return (1, k.concrete())
     if isinstance(k, Adt): return (2, k.variant, tuple(_sort_key(f) for f in k.fields))
     raise TypeError
@@ -563,7 +563,7 @@ def collect_string(vm, it):
     terms = []
     for x in items:
         x = D(vm, x)
-        terms.append(to_sym(x) if isinstance(x, (SymStr, BStr)) else (z3.StringVal(chr(x)) if isinstance(x, int) else char_to_str(x)))
+        terms.append(to_sym(x) if isinstance(x, (SymStr, BStr)) else (zs(chr(x)) if isinstance(x, int) else char_to_str(x)))
     return SymStr(z3.simplify(z3.Concat(*terms))) if len(terms) > 1 else SymStr(terms[0]) if terms else const_str(vm, '')
 
 
